@@ -330,7 +330,33 @@ func (m *model) finishBuild() error {
 	if err := m.openCache(false); err != nil {
 		return err
 	}
-	return m.closeCache()
+	if err := m.closeCache(); err != nil {
+		return err
+	}
+	// with other bugs around, one of them is the selected bug (`git-bug bug select`): commands
+	// given an id that matches nothing fall back on the selection
+	if m.p.Kind == "bug" && !m.p.NoUser && len(m.others) > 0 {
+		exit, out, err := m.runCLI(filepath.Join(m.dir, "A"), "bug", "select", string(m.others[0])[:12])
+		if err != nil {
+			return err
+		}
+		if exit != 0 {
+			return fmt.Errorf("git-bug bug select: exit %d: %s", exit, out)
+		}
+	}
+	return nil
+}
+
+// selection is the content of the select files of A ("" when nothing is selected).
+func (m *model) selection() string {
+	var parts []string
+	for _, ns := range []string{"bugs", "identities"} {
+		b, err := os.ReadFile(filepath.Join(m.dir, "A", ".git", world.Namespace, "select", ns))
+		if err == nil {
+			parts = append(parts, ns+"="+string(b))
+		}
+	}
+	return strings.Join(parts, ";")
 }
 
 func (m *model) Close() {
@@ -595,5 +621,5 @@ func (m *model) Key() (string, error) {
 	}
 	cfg, _ := os.ReadFile(filepath.Join(m.dir, "A", ".git", "config"))
 	cfg = bytes.ReplaceAll(cfg, []byte(m.dir), []byte("$WORLD")) // remote URLs embed the scratch directory
-	return m.w.Key("view\n"+v.Digest(), fmt.Sprint("removed ", m.removed, " told ", m.told, " edits ", m.nEdit), "config\n"+string(cfg))
+	return m.w.Key("view\n"+v.Digest(), fmt.Sprint("removed ", m.removed, " told ", m.told, " edits ", m.nEdit, " selected ", m.selection()), "config\n"+string(cfg))
 }
